@@ -5,6 +5,7 @@
 package main
 
 import (
+	"context"
 	"fmt"
 	"math/rand"
 	"os"
@@ -51,8 +52,10 @@ func main() {
 	r := common.Start("clusterrun")
 	sk := &sink{r: r}
 	switch r.Mode {
-	case "chaos":
+	case "chaos", "sessions":
 		chaosMode(r, sk)
+	case "replay":
+		replayMode(r, sk)
 	case "learner":
 		learnerMode(r, sk)
 	case "contract":
@@ -61,6 +64,8 @@ func main() {
 		requestsMode(r, sk)
 	case "importer":
 		importerMode(r, sk)
+	case "roles":
+		rolesMode(r, sk)
 	default:
 		fmt.Fprintln(os.Stderr, "unknown mode", r.Mode)
 		os.Exit(2)
@@ -69,29 +74,34 @@ func main() {
 }
 
 type chaosOpt struct {
-	Case         int    `json:"case"`
-	Hosts        int    `json:"hosts"`
-	Store        string `json:"store"`
-	SM           string `json:"sm"`
-	NotifyCommit bool   `json:"notify_commit"`
-	PreVote      bool   `json:"pre_vote"`
-	CheckQuorum  bool   `json:"check_quorum"`
-	SnapEntries  uint64 `json:"snapshot_entries"`
-	Overhead     uint64 `json:"compaction_overhead"`
-	Keys         int    `json:"keys"`
-	Clients      int    `json:"clients"`
-	OpsPerClient int    `json:"ops_per_client"`
-	TimeoutMs    int    `json:"timeout_ms"`
-	ScriptLen    int    `json:"script_len"`
-	Crashes      bool   `json:"crashes"`
-	SaveDelayMs  int    `json:"save_delay_ms"`
-	PaceMs       int    `json:"pace_ms"`
-	Seed         int64  `json:"seed"`
+	Case          int    `json:"case"`
+	Hosts         int    `json:"hosts"`
+	Store         string `json:"store"`
+	SM            string `json:"sm"`
+	NotifyCommit  bool   `json:"notify_commit"`
+	PreVote       bool   `json:"pre_vote"`
+	CheckQuorum   bool   `json:"check_quorum"`
+	SnapEntries   uint64 `json:"snapshot_entries"`
+	Overhead      uint64 `json:"compaction_overhead"`
+	Keys          int    `json:"keys"`
+	Clients       int    `json:"clients"`
+	OpsPerClient  int    `json:"ops_per_client"`
+	TimeoutMs     int    `json:"timeout_ms"`
+	ScriptLen     int    `json:"script_len"`
+	Crashes       bool   `json:"crashes"`
+	NonVoting     bool   `json:"non_voting_replica"`
+	SaveDelayMs   int    `json:"save_delay_ms"`
+	PaceMs        int    `json:"pace_ms"`
+	SlowPrepareMs int    `json:"slow_prepare_ms"`
+	Seed          int64  `json:"seed"`
 }
 
 func chaosMode(r *common.Run, sk *sink) {
 	r.SetRule("each case = one lifetime of a 3- or 5-host cluster of real NodeHosts (one shard; PRNG-chosen store, state machine kind, NotifyCommit, PreVote/CheckQuorum, snapshot frequency) with 6-10 concurrent clients mixing SyncPropose, Propose+wait, SyncRead and ReadIndex+ReadLocalNode on every replica while a PRNG fault script runs (loss/delay/reordering, partitions, leader isolation, one-way cuts, leader transfer, power-loss crash + restart, graceful restart), then heal, convergence, power loss of all hosts, restart and final reads; non-trivial = the history has overlapping writes on a key, a read overlapping a write and more than one leader term; distinct by hash of the recorded history")
 	r.Assume("E2 samples goroutine schedules of the real pipeline; a crash drops exactly the unsynced data of the host's strict in-memory file system after its traffic was cut; results observed after a host's crash instant count as unknown")
+	if r.Mode == "replay" {
+		r.SetRule("each case = one lifetime of a 3- or 5-host cluster of real NodeHosts as in the chaos stage, tuned for C08: snapshots every 8-25 entries with a compaction overhead of 1-3 entries so that lagging, isolated, crashed and newly added (non-voting) replicas are caught up by snapshot (file transfer for plain/concurrent state machines, live stream for on-disk ones), PrepareSnapshot dwelling 0-3 ms; after healing and again after a power loss of all hosts the state of every replica is compared with the replay of the whole committed log (union of the apply records of all state machine incarnations) up to the last entry that replica holds; non-trivial = at least one RecoverFromSnapshot happened and the replicas converged; distinct by hash of the recorded history. Then catch-up cases: 3 replicas (+1 non-voting replica added half way) under continuous writes, 8-13 cycles of cutting off or crashing a follower until the leader compacted the log it misses, healing, and catching it up by snapshot while entries keep being applied; same oracle")
+	}
 	n := r.Pick(8, 160)
 	if r.Prop == "C04" {
 		n = r.Pick(8, 200)
@@ -118,8 +128,27 @@ func chaosMode(r *common.Run, sk *sink) {
 		case 1:
 			o.SM = "ondisk"
 		}
+		if r.Mode == "sessions" {
+			// registered sessions are not supported by on-disk state machines;
+			// small timeouts make retries frequent
+			if o.SM == "ondisk" {
+				o.SM = "regular"
+			}
+			o.TimeoutMs = 60 + rng.Intn(300)
+			o.SnapEntries = []uint64{15, 25, 60}[rng.Intn(3)]
+		}
 		if rng.Intn(4) == 0 {
 			o.SaveDelayMs = 2 + rng.Intn(4)
+		}
+		o.NonVoting = rng.Intn(3) == 0
+		if r.Mode == "replay" {
+			// C08: frequent snapshots, short logs (lagging replicas need a snapshot: a file for
+			// plain / concurrent state machines, a live stream for on-disk ones), slow PrepareSnapshot
+			o.SnapEntries = []uint64{8, 15, 25}[rng.Intn(3)]
+			o.Overhead = uint64(1 + rng.Intn(3))
+			o.SM = []string{"ondisk", "ondisk", "concurrent", "regular"}[rng.Intn(4)]
+			o.SlowPrepareMs = rng.Intn(4)
+			o.PaceMs = 5 + rng.Intn(15)
 		}
 		runChaos(r, sk, o)
 		r.Flush()
@@ -134,11 +163,16 @@ func runChaos(r *common.Run, sk *sink, o chaosOpt) {
 	if o.Store == "tan" {
 		store = cluster.Tan
 	}
+	nHosts := o.Hosts
+	if o.NonVoting {
+		nHosts++ // one more host carrying a non-voting replica that clients use as well
+	}
 	c := cluster.NewCluster(cluster.Options{
-		Hosts: o.Hosts, Seed: o.Seed, RTTMs: 10, Store: store, NotifyCommit: o.NotifyCommit,
+		Hosts: nHosts, Seed: o.Seed, RTTMs: 10, Store: store, NotifyCommit: o.NotifyCommit,
 		SaveDelay: time.Duration(o.SaveDelayMs) * time.Millisecond,
 		SMOpt: func(uint64, uint64) cluster.SMOptions {
-			return cluster.SMOptions{Kind: kind, RecordApply: true, RaceCanary: true}
+			return cluster.SMOptions{Kind: kind, RecordApply: true, RaceCanary: true,
+				SlowPrepare: time.Duration(o.SlowPrepareMs) * time.Millisecond}
 		},
 	}, sk)
 	const shardID = 1
@@ -191,8 +225,34 @@ func runChaos(r *common.Run, sk *sink, o chaosOpt) {
 		c.StopAll()
 		return
 	}
+	if o.NonVoting {
+		nvID := uint64(o.Hosts + 1)
+		nvHost := c.Hosts[o.Hosts]
+		added := false
+		for try := 0; try < 40 && !added; try++ {
+			if li := c.LeaderHost(shardID, replicas); li >= 0 {
+				ctx, cancel := context.WithTimeout(context.Background(), time.Second)
+				err := c.Hosts[li].NodeHost().SyncRequestAddNonVoting(ctx, shardID, nvID, nvHost.Addr, 0)
+				cancel()
+				added = err == nil
+			}
+			if !added {
+				time.Sleep(50 * time.Millisecond)
+			}
+		}
+		if added {
+			cfg := cluster.ShardConfig(shardID, nvID)
+			cfg.PreVote, cfg.CheckQuorum = o.PreVote, o.CheckQuorum
+			cfg.SnapshotEntries, cfg.CompactionOverhead = o.SnapEntries, o.Overhead
+			cfg.IsNonVoting = true
+			if err := nvHost.StartReplica(nil, true, kind, cfg); err == nil {
+				replicas[nvID] = o.Hosts
+				sk.Count("cases_with_non_voting_replica", 1)
+			}
+		}
+	}
 	stop := make(chan struct{})
-	script := cluster.MakeScript(rand.New(rand.NewSource(o.Seed^0x5c)), o.Hosts, o.ScriptLen, o.Crashes, 250)
+	script := cluster.MakeScript(rand.New(rand.NewSource(o.Seed^0x5c)), nHosts, o.ScriptLen, o.Crashes, 250)
 	var fstats map[string]int64
 	var wg sync.WaitGroup
 	wg.Add(1)
@@ -251,7 +311,16 @@ func runChaos(r *common.Run, sk *sink, o chaosOpt) {
 	// operation cap so that the history stays decidable)
 	done := make(chan struct{})
 	go func() { wg.Wait(); close(done) }()
-	w.RunClientsPaced(o.Clients, o.OpsPerClient, o.PaceMs, done)
+	if r.Mode == "sessions" {
+		// session clients (retry with the same series id) plus two plain readers
+		var swg sync.WaitGroup
+		swg.Add(1)
+		go func() { defer swg.Done(); w.RunClientsPaced(2, o.OpsPerClient, o.PaceMs, done) }()
+		w.RunSessionClients(o.Clients, o.OpsPerClient/2, o.PaceMs, done)
+		swg.Wait()
+	} else {
+		w.RunClientsPaced(o.Clients, o.OpsPerClient, o.PaceMs, done)
+	}
 	close(stop)
 	wg.Wait()
 	// heal
@@ -267,6 +336,7 @@ func runChaos(r *common.Run, sk *sink, o chaosOpt) {
 		r.Inconclusive(fmt.Sprintf("case %d: replicas did not reach equal state within 30s after healing", o.Case))
 		sk.Count("not_converged_after_heal", 1)
 	}
+	replayCheck(c, sk, shardID, replicas, o.Case, "after-heal")
 	// a few final client operations through the healed cluster
 	w.RunClients(2, 6, nil)
 	waitFor(10*time.Second, func() bool { return sameState(c, shardID, replicas) })
@@ -285,6 +355,7 @@ func runChaos(r *common.Run, sk *sink, o chaosOpt) {
 		sk.Count("not_converged_after_full_power_loss", 1)
 	}
 	final := finalLists(c, sk, shardID, replicas, o.Keys)
+	replayCheck(c, sk, shardID, replicas, o.Case, "after-full-power-loss")
 	ops := hist.Ops()
 	c.StopAll()
 
@@ -300,6 +371,9 @@ func runChaos(r *common.Run, sk *sink, o chaosOpt) {
 			sk.Violation("C01", "history:"+a.Kind, a.What, wit)
 			if a.Kind == "duplicate-apply" || a.Kind == "failed-write-visible" {
 				sk.Violation("C12", "history:"+a.Kind, a.What, wit)
+			}
+			if r.Mode == "sessions" && (a.Kind == "duplicate-apply" || a.Kind == "wrong-result" || a.Kind == "acknowledged-write-lost") {
+				sk.Violation("C05", "sessions:"+a.Kind, a.What, wit)
 			}
 		}
 		sk.Count("histories_decided", 1)
@@ -333,13 +407,21 @@ func runChaos(r *common.Run, sk *sink, o chaosOpt) {
 	sk.Count("net_conn_failures", ns.ConnFailures)
 	sk.Count("net_chunks", ns.Chunks)
 	sk.Count("leader_terms", int64(c.LeaderTerms()))
+	var ssRecoveries int64
 	for _, in := range c.SMs.Instances() {
 		for m, n := range in.Calls() {
 			sk.Count("sm_calls_"+m, n)
+			if m == "RecoverFromSnapshot" {
+				ssRecoveries += n
+			}
 		}
 	}
 	leaderTerms := c.LeaderTerms()
 	nontrivial := overlapW && overlapRW && leaderTerms > 1 && recovered
+	if r.Mode == "replay" {
+		// C08: some replica continued from a snapshot (installed or recovered) and then applied a log suffix
+		nontrivial = ssRecoveries > 0 && recovered
+	}
 	r.Case(nontrivial, common.Hash(fmt.Sprintf("%v", ops)))
 	if r.WantSample() {
 		sample := map[string]interface{}{"options": o, "ops": len(ops), "ops_ok": nOK, "leader_terms": leaderTerms,
@@ -429,6 +511,75 @@ func finalLists(c *cluster.Cluster, sk *sink, shardID uint64, replicas map[uint6
 		out[cluster.KeyName(byte(k))] = ref[byte(k)]
 	}
 	return out
+}
+
+// replayCheck (C08): whatever mix of snapshots (saved, streamed, installed, recovered after a
+// crash) and log suffixes a replica went through, the state it holds must equal the replay of
+// the whole committed log up to the last entry it holds. The committed log is the union of the
+// apply records of every state machine incarnation of the shard (index -> key, id).
+func replayCheck(c *cluster.Cluster, sk *sink, shardID uint64, replicas map[uint64]int, caseNo int, when string) {
+	log := map[uint64]cluster.ApplyRec{}
+	var idxs []uint64
+	recovered := map[uint64]int64{}
+	for _, in := range c.SMs.Instances() {
+		if in.ShardID != shardID {
+			continue
+		}
+		recovered[in.ReplicaID] += in.Calls()["RecoverFromSnapshot"]
+		for _, a := range in.Applied() {
+			if p, ok := log[a.Index]; ok {
+				if p.Key != a.Key || p.ID != a.ID {
+					sk.Violation("C02", "index-applied-with-two-values", fmt.Sprintf("index %d applied as id %d and as id %d", a.Index, p.ID, a.ID), nil)
+				}
+				continue
+			}
+			log[a.Index] = a
+			idxs = append(idxs, a.Index)
+		}
+	}
+	sort.Slice(idxs, func(i, j int) bool { return idxs[i] < idxs[j] })
+	for rep := range replicas {
+		in := c.SMs.Latest(shardID, rep)
+		if in == nil {
+			continue
+		}
+		applied, lists := in.AppliedAndLists()
+		want := map[byte][]uint64{}
+		for _, i := range idxs {
+			if i > applied {
+				break
+			}
+			want[log[i].Key] = append(want[log[i].Key], log[i].ID)
+		}
+		sk.Count("replica_states_compared_with_full_replay", 1)
+		if recovered[rep] > 0 {
+			sk.Count("replica_states_compared_after_snapshot_recovery", 1)
+		}
+		bad := ""
+		for k, w := range want {
+			g := lists[k]
+			if len(g) != len(w) {
+				bad = fmt.Sprintf("key %d holds %d ids, the replay of the log up to index %d gives %d", k, len(g), applied, len(w))
+				break
+			}
+			for i := range w {
+				if g[i] != w[i] {
+					bad = fmt.Sprintf("key %d position %d holds id %d, the replay of the log gives %d", k, i+1, g[i], w[i])
+					break
+				}
+			}
+		}
+		for k, g := range lists {
+			if len(g) > 0 && len(want[k]) == 0 && bad == "" {
+				bad = fmt.Sprintf("key %d holds %d ids, the replay of the log up to index %d gives none", k, len(g), applied)
+			}
+		}
+		if bad != "" {
+			sk.Violation("C08", "state-differs-from-full-replay",
+				fmt.Sprintf("replica %d (%s, %d snapshot recoveries): %s", rep, when, recovered[rep], bad),
+				map[string]interface{}{"case": caseNo, "replica": rep, "applied": applied, "when": when, "snapshot_recoveries": recovered[rep]})
+		}
+	}
 }
 
 func histShape(ops []linz.Op) (nOK int, overlapW, overlapRW bool) {
